@@ -170,7 +170,82 @@ theorem stdout_at_reader_error (fuel : Nat) (text : String) (v : Option Value) (
   rw [cli_some, h]
   exact ⟨rfl, rfl, rfl, rfl⟩
 
+/-! ## the layout of the file -/
+
+/-- A TEXT IS ITS (LOCATED) TOKENS: the library interface, hence `ruschm FILE`, depends on the
+text only through what the lexer makes of it — two texts with the same tokens at the same
+locations (and the same lexer error, if any) are evaluated alike, to the same outcome, state,
+output and diagnostic. -/
+theorem text_is_its_tokens (fuel : Nat) (s₁ s₂ : String) (h : Lex.all s₁.toList = Lex.all s₂.toList) :
+    (∀ st, evalText fuel st s₁.toList = evalText fuel st s₂.toList) ∧
+    cli fuel (some s₁) = cli fuel (some s₂) := by
+  have h1 : ∀ st, evalText fuel st s₁.toList = evalText fuel st s₂.toList :=
+    fun st => evalText_lex_congr fuel st _ _ h
+  exact ⟨h1, by rw [cli_some, cli_some, h1]⟩
+
+/-- LAYOUT OF A FILE. A program is a sequence of (supported) tokens written with a layout: blanks,
+line ends and comments before, between and after the tokens (`Text.interleave`, `ValidLayout`).
+Two layouts that move the cursor alike up to the last token (`SameCursor`: separator by
+separator the same line and column are reached — what follows the LAST token is unconstrained)
+give the same located tokens, hence exactly the same run: same outcome, error location
+included, same state, same output, same exit status. -/
+theorem file_text_layout (fuel : Nat) (ts : List Token) (l₁ l₂ : List (List Char))
+    (hs : ∀ t ∈ ts, Text.SupportedTok t) (h₁ : Text.ValidLayout ts l₁) (h₂ : Text.ValidLayout ts l₂)
+    (hc : SameCursor l₁ l₂) :
+    Lex.all (Text.interleave ts l₁) = Lex.all (Text.interleave ts l₂) ∧
+    (∀ st, evalText fuel st (Text.interleave ts l₁) = evalText fuel st (Text.interleave ts l₂)) ∧
+    cli fuel (some (String.ofList (Text.interleave ts l₁))) =
+      cli fuel (some (String.ofList (Text.interleave ts l₂))) := by
+  have hl : Lex.all (Text.interleave ts l₁) = Lex.all (Text.interleave ts l₂) := by
+    rw [all_render_located ts l₁ hs h₁, all_render_located ts l₂ hs h₂,
+      locate_sameCursor ts l₁ l₂ (1, 1) h₁ h₂ hc]
+  refine ⟨hl, fun st => evalText_lex_congr fuel st _ _ hl, ?_⟩
+  exact (text_is_its_tokens fuel _ _ (by simpa using hl)).2
+
+/-- A FINAL NEWLINE (or any other blanks, line ends and comments after the last token) changes
+nothing: whatever follows the last token, the run is the same. -/
+theorem final_newline_irrelevant (fuel : Nat) (ts : List Token) (l : List (List Char)) (a b : List Char)
+    (hs : ∀ t ∈ ts, Text.SupportedTok t)
+    (h₁ : Text.ValidLayout ts (l ++ [a])) (h₂ : Text.ValidLayout ts (l ++ [b])) (hlen : l.length = ts.length) :
+    cli fuel (some (String.ofList (Text.interleave ts (l ++ [a])))) =
+      cli fuel (some (String.ofList (Text.interleave ts (l ++ [b])))) :=
+  (file_text_layout fuel ts _ _ hs h₁ h₂ (sameCursor_last ts l a b hlen)).2.2
+
+/-- LF OR CRLF. Writing every line end between the tokens — in blanks and at the end of
+comments, i.e. outside string literals and other tokens — as CR LF instead of LF gives a valid
+layout again, with every token at the same line and column, and exactly the same run. -/
+theorem crlf_irrelevant (fuel : Nat) (ts : List Token) (l : List (List Char))
+    (hs : ∀ t ∈ ts, Text.SupportedTok t) (h : Text.ValidLayout ts l) :
+    Text.ValidLayout ts (l.map crlf) ∧
+    cli fuel (some (String.ofList (Text.interleave ts (l.map crlf)))) =
+      cli fuel (some (String.ofList (Text.interleave ts l))) := by
+  have hv := validLayout_crlf ts hs l h
+  exact ⟨hv, (file_text_layout fuel ts _ _ hs h hv (sameCursor_crlf ts l h)).2.2.symm⟩
+
 section Example
+/-- the tokens `1` `)` written `1 ;c⏎)` and `1 ;c␍⏎)⏎`: same located tokens, same run -/
+example : Text.interleave [.prim (.int 1), .rparen] [[], " ;c\n".toList, []] = "1 ;c\n)".toList := by decide
+example : Text.interleave [.prim (.int 1), .rparen] ([[], " ;c\n".toList, ['\n']].map crlf)
+    = "1 ;c\r\n)\r\n".toList := by decide
+example (fuel : Nat) : cli fuel (some "1 ;c\r\n)\r\n") = cli fuel (some "1 ;c\n)") := by
+  have hs : ∀ t ∈ [Token.prim (.int 1), .rparen], Text.SupportedTok t := by
+    intro t ht
+    simp only [List.mem_cons, List.not_mem_nil, or_false] at ht
+    rcases ht with rfl | rfl
+    · exact (by decide : fitsI32 1 = true)
+    · trivial
+  have h1 := (crlf_irrelevant fuel [.prim (.int 1), .rparen] [[], " ;c\n".toList, ['\n']] hs (by decide)).2
+  have h2 := final_newline_irrelevant fuel [.prim (.int 1), .rparen] [[], " ;c\n".toList] ['\n'] [] hs
+    (by decide) (by decide) rfl
+  have e1 : String.ofList (Text.interleave [.prim (.int 1), .rparen] ([[], " ;c\n".toList, ['\n']].map crlf))
+      = "1 ;c\r\n)\r\n" := by decide
+  have e2 : String.ofList (Text.interleave [.prim (.int 1), .rparen] ([[], " ;c\n".toList] ++ [[]]))
+      = "1 ;c\n)" := by decide
+  rw [e1] at h1
+  rw [e2] at h2
+  rw [h1, ← h2]
+  rfl
+
 /-- the file `)`: the reader fails at line 1, column 2 — one syntax diagnostic there, status 255,
 nothing written -/
 example (fuel : Nat) : (cli fuel (some ")")).exitCode = 255 ∧ (cli fuel (some ")")).diag = some (some (1, 2)) ∧
